@@ -222,6 +222,18 @@ func (vfs *MemFS) isNotExist(err error) bool {
 	return err == vfs.err.NoSuchDir || err == vfs.err.NoSuchFile
 }
 
+// ownedBy returns true if the user u is the owner of the node.
+func (bn *baseNode) ownedBy(u avfs.UserReader) bool {
+	return bn.uid == u.Uid()
+}
+
+// mayUnlink reports whether the user u may remove or rename an entry of the directory dn :
+// when the sticky bit of the directory is set, only the owner of the entry (owned),
+// the owner of the directory and an administrator may.
+func (dn *dirNode) mayUnlink(owned bool, u avfs.UserReader) bool {
+	return dn.mode&fs.ModeSticky == 0 || owned || u.IsAdmin() || dn.ownedBy(u)
+}
+
 // checkPermission checks if the current user has the desired permissions (perm) on the node.
 func (bn *baseNode) checkPermission(perm avfs.OpenMode, u avfs.UserReader) bool {
 	const PermRWX = 0o007 // filter all permissions bits.
